@@ -1,2 +1,199 @@
+//! C29 (spec/Eol.tla): contents with runs around the 8 KiB probe limit taken
+//! through a REAL check-out and snapshot under each
+//! `working-copy.eol-conversion` mode (the functions of eol.rs are
+//! pub(crate)).  Contents are logged as run-length lists over the classes
+//! 0 = text byte ('a'), 1 = CR, 2 = LF, 3 = NUL; TLC judges.
+use jj_lib::backend::TreeValue;
+use jj_lib::merged_tree::MergedTree;
+use jj_lib::repo_path::RepoPathBuf;
 use jjconf::util::Opts;
-pub fn record(_opts: &Opts) -> Result<(), String> { Err("todo".into()) }
+use jjconf::util::Out;
+use jjconf::util::Rng;
+use jjconf::util::catch;
+use pollster::FutureExt as _;
+use serde_json::Value;
+use serde_json::json;
+use testutils::TestTreeBuilder;
+use testutils::commit_with_tree;
+use testutils::empty_snapshot_options;
+
+use crate::common::Ws;
+use crate::common::mtime_ms;
+use crate::common::set_mtime_ms;
+
+type Rle = Vec<(u8, usize)>;
+
+const BYTES: [u8; 4] = [b'a', b'\r', b'\n', 0];
+
+fn to_bytes(rle: &Rle) -> Vec<u8> {
+    let mut v = vec![];
+    for &(c, n) in rle {
+        v.extend(std::iter::repeat_n(BYTES[c as usize], n));
+    }
+    v
+}
+
+/// Projection of real bytes to the model vocabulary; None if a byte outside the
+/// four classes shows up (then the raw length is logged instead).
+fn to_rle(bytes: &[u8]) -> Option<Rle> {
+    let mut out: Rle = vec![];
+    for &b in bytes {
+        let c = BYTES.iter().position(|&x| x == b)? as u8;
+        match out.last_mut() {
+            Some((lc, n)) if *lc == c => *n += 1,
+            _ => out.push((c, 1)),
+        }
+    }
+    Some(out)
+}
+
+fn rle_json(r: &Option<Rle>) -> Value {
+    match r {
+        Some(r) => json!(r.iter().map(|&(c, n)| json!([c, n])).collect::<Vec<_>>()),
+        None => json!([[9, 1]]), // not representable: the judge rejects it as not-normal
+    }
+}
+
+/// every content of up to `max_runs` runs in normal form, lengths from the
+/// vocabulary (the domain of MC_Eol)
+fn domain(max_runs: usize, text_lens: &[usize], other_lens: &[usize]) -> Vec<Rle> {
+    let mut out: Vec<Rle> = vec![vec![]];
+    let mut frontier: Vec<Rle> = vec![vec![]];
+    for _ in 0..max_runs {
+        let mut next = vec![];
+        for c in &frontier {
+            for cls in 0..4u8 {
+                if c.last().is_some_and(|&(lc, _)| lc == cls) {
+                    continue;
+                }
+                let lens = if cls == 0 { text_lens } else { other_lens };
+                for &n in lens {
+                    let mut d = c.clone();
+                    d.push((cls, n));
+                    next.push(d);
+                }
+            }
+        }
+        out.extend(next.iter().cloned());
+        frontier = next;
+    }
+    out
+}
+
+fn random_content(rng: &mut Rng) -> Rle {
+    let runs = rng.range(1, 7);
+    let mut out: Rle = vec![];
+    // total text so far decides how close to the limit we are; bias run lengths
+    for _ in 0..runs {
+        let mut cls = *rng.pick(&[0u8, 0, 1, 2, 2, 3]);
+        if out.last().is_some_and(|&(lc, _)| lc == cls) {
+            cls = (cls + 1) % 4;
+        }
+        let n = if cls == 0 {
+            *rng.pick(&[1usize, 2, 3, 5, 100, 4095, 8187, 8188, 8189, 8190, 8191, 8192, 8193, 8194, 16383, 16384])
+        } else {
+            *rng.pick(&[1usize, 1, 1, 2, 3])
+        };
+        out.push((cls, n));
+    }
+    out
+}
+
+fn read_tree_file(tree: &MergedTree, path: &RepoPathBuf) -> Option<Vec<u8>> {
+    let v = tree.path_value(path).block_on().ok()?;
+    match v.as_resolved() {
+        Some(Some(TreeValue::File { id, .. })) => Some(testutils::read_file(tree.store(), path, id)),
+        _ => None,
+    }
+}
+
+fn snapshot(ws: &mut Ws) -> Result<MergedTree, String> {
+    let mut locked = ws.tw.workspace.working_copy().start_mutation().block_on().map_err(|e| e.to_string())?;
+    let (tree, _) = locked.snapshot(&empty_snapshot_options()).block_on().map_err(|e| format!("snapshot: {e}"))?;
+    locked.finish(ws.repo().op_id().clone()).block_on().map_err(|e| e.to_string())?;
+    Ok(tree)
+}
+
+/// one batch in one workspace: check-out of all contents, touch, snapshot;
+/// then the same contents written directly by the "user" and snapshotted
+fn batch(mode: &str, contents: &[Rle], first_index: usize, out: &mut Vec<Value>) -> Result<(), String> {
+    let mut ws = Ws::new(&format!("working-copy.eol-conversion = \"{mode}\"\n"));
+    let root = ws.root();
+    let store = ws.store();
+    let paths: Vec<RepoPathBuf> =
+        (0..contents.len()).map(|i| RepoPathBuf::from_internal_string(format!("e{}", first_index + i)).unwrap()).collect();
+    let mut tb = TestTreeBuilder::new(store.clone());
+    for (p, c) in paths.iter().zip(contents) {
+        tb.file(p, to_bytes(c));
+    }
+    let commit = commit_with_tree(&store, tb.write_merged_tree());
+    let mut locked = ws.tw.workspace.working_copy().start_mutation().block_on().map_err(|e| e.to_string())?;
+    locked.check_out(&commit).block_on().map_err(|e| format!("check_out: {e}"))?;
+    locked.finish(ws.repo().op_id().clone()).block_on().map_err(|e| e.to_string())?;
+    let mut disks = vec![];
+    for p in &paths {
+        let dp = p.to_fs_path(&root).map_err(|e| e.to_string())?;
+        disks.push(std::fs::read(&dp).map_err(|e| format!("read {}: {e}", dp.display()))?);
+        // "touch": the snapshot must look at the content again
+        set_mtime_ms(&dp, mtime_ms(&dp)? + 5000)?;
+    }
+    ws.reload()?;
+    let tree = snapshot(&mut ws)?;
+    for (i, p) in paths.iter().enumerate() {
+        let restored = read_tree_file(&tree, p);
+        out.push(json!({"op":"eol","mode":mode,"idx":first_index + i,
+            "stored": rle_json(&Some(contents[i].clone())),
+            "disk": rle_json(&to_rle(&disks[i])),
+            "restored": rle_json(&restored.as_deref().and_then(to_rle))}));
+    }
+    // user-written files
+    let upaths: Vec<RepoPathBuf> =
+        (0..contents.len()).map(|i| RepoPathBuf::from_internal_string(format!("u{}", first_index + i)).unwrap()).collect();
+    for (p, c) in upaths.iter().zip(contents) {
+        let dp = p.to_fs_path(&root).map_err(|e| e.to_string())?;
+        std::fs::write(&dp, to_bytes(c)).map_err(|e| e.to_string())?;
+    }
+    let tree = snapshot(&mut ws)?;
+    for (i, p) in upaths.iter().enumerate() {
+        let stored = read_tree_file(&tree, p);
+        out.push(json!({"op":"eolsnap","mode":mode,"idx":first_index + i,
+            "disk": rle_json(&Some(contents[i].clone())),
+            "stored": rle_json(&stored.as_deref().and_then(to_rle))}));
+    }
+    Ok(())
+}
+
+pub fn record(opts: &Opts) -> Result<(), String> {
+    jjconf::util::quiet_panics();
+    let mut out = Out::create(&opts.str("out", "eol.ndjson"))?;
+    let seed = opts.u64("seed", 0);
+    let max_runs = opts.usize("maxruns", 3);
+    let n_random = opts.usize("random", 300);
+    let parse = |s: String| -> Vec<usize> { s.split(',').filter_map(|x| x.parse().ok()).collect() };
+    let text_lens = parse(opts.str("textlens", "1,2,8190,8191,8192,8193"));
+    let other_lens = parse(opts.str("otherlens", "1,2"));
+    let mut rng = Rng::new(seed);
+    let mut contents = domain(max_runs, &text_lens, &other_lens);
+    let n_dom = contents.len();
+    for _ in 0..n_random {
+        contents.push(random_content(&mut rng));
+    }
+    out.emit(&json!({"op":"domain","maxruns":max_runs,"count":n_dom,"random":n_random}));
+    for mode in ["none", "input", "input-output"] {
+        for (bi, chunk) in contents.chunks(250).enumerate() {
+            let chunk_v = chunk.to_vec();
+            let mode_s = mode.to_string();
+            let r = catch(move || {
+                let mut recs = vec![];
+                batch(&mode_s, &chunk_v, bi * 250, &mut recs).map(|()| recs)
+            });
+            match r {
+                Ok(Ok(recs)) => recs.iter().for_each(|r| out.emit(r)),
+                Ok(Err(e)) => return Err(format!("mode {mode} batch {bi}: {e}")),
+                Err(p) => out.emit(&json!({"op":"panic","mode":mode,"batch":bi,"msg":p})),
+            }
+        }
+    }
+    out.finish();
+    Ok(())
+}
